@@ -1,0 +1,53 @@
+// +build verif
+
+// Verification hooks (build tag `verif`). Nothing in here is compiled into a
+// normal build. The hooks only expose existing seams; they change no behaviour.
+
+package db
+
+// VerifPager is the exported twin of the internal `pager` interface.
+type VerifPager interface {
+	Page(n int, pagesize int) ([]byte, error)
+	Close() error
+	RLock() error
+	RUnlock() error
+	CheckReservedLock() (bool, error)
+}
+
+type verifPagerAdapter struct{ p VerifPager }
+
+func (a verifPagerAdapter) page(n int, pagesize int) ([]byte, error) { return a.p.Page(n, pagesize) }
+func (a verifPagerAdapter) Close() error                             { return a.p.Close() }
+func (a verifPagerAdapter) RLock() error                             { return a.p.RLock() }
+func (a verifPagerAdapter) RUnlock() error                           { return a.p.RUnlock() }
+func (a verifPagerAdapter) CheckReservedLock() (bool, error)         { return a.p.CheckReservedLock() }
+
+type verifFilePager struct{ p pager }
+
+func (a verifFilePager) Page(n int, pagesize int) ([]byte, error) { return a.p.page(n, pagesize) }
+func (a verifFilePager) Close() error                             { return a.p.Close() }
+func (a verifFilePager) RLock() error                             { return a.p.RLock() }
+func (a verifFilePager) RUnlock() error                           { return a.p.RUnlock() }
+func (a verifFilePager) CheckReservedLock() (bool, error)         { return a.p.CheckReservedLock() }
+
+// VerifOpen opens a Database on a caller supplied pager, exactly like
+// OpenFile does on the file pager. `journal` may be empty.
+func VerifOpen(p VerifPager, journal string) (*Database, error) {
+	return newDatabase(verifPagerAdapter{p}, journal)
+}
+
+// VerifFilePager gives the real file pager OpenFile uses, so it can be
+// wrapped (traced, faulted) and handed to VerifOpen.
+func VerifFilePager(file string) (VerifPager, error) {
+	p, err := newFilePager(file)
+	if err != nil {
+		return nil, err
+	}
+	return verifFilePager{p}, nil
+}
+
+// VerifSetCachePages replaces the page cache by an empty one of the given
+// size (the shipped size is the constant CachePages).
+func (db *Database) VerifSetCachePages(n int) {
+	db.btreeCache = newBtreeCache(n)
+}
